@@ -9,6 +9,7 @@ import (
 	"encoding/json"
 	"fmt"
 	"hash/fnv"
+	"math"
 	"os"
 	"path/filepath"
 	"runtime"
@@ -409,7 +410,7 @@ func (r *Run) Finish() int {
 	if r.Assumptions == nil {
 		ev["assumptions"] = []string{}
 	}
-	b, err := json.MarshalIndent(ev, "", " ")
+	b, err := json.MarshalIndent(sanitizeJSON(ev), "", " ")
 	if err != nil {
 		fmt.Printf("INCONCLUSIVE property=%s reason=evidence-marshal:%v\n", r.Prop, err)
 		return 3
@@ -545,3 +546,46 @@ func notePanic(p any) {
 
 // NotePanic lets drivers and main report a recovered panic the same way.
 func NotePanic(p any) { notePanic(p) }
+
+// sanitizeJSON makes a value safe for encoding/json: NaN and infinities (which a broken
+// library can easily produce in "max error" observations) become strings.
+func sanitizeJSON(v any) any {
+	switch x := v.(type) {
+	case float64:
+		if math.IsNaN(x) || math.IsInf(x, 0) {
+			return fmt.Sprint(x)
+		}
+		return x
+	case float32:
+		return sanitizeJSON(float64(x))
+	case map[string]any:
+		o := make(map[string]any, len(x))
+		for k, e := range x {
+			o[k] = sanitizeJSON(e)
+		}
+		return o
+	case map[string]float64:
+		o := make(map[string]any, len(x))
+		for k, e := range x {
+			o[k] = sanitizeJSON(e)
+		}
+		return o
+	case []any:
+		o := make([]any, len(x))
+		for i, e := range x {
+			o[i] = sanitizeJSON(e)
+		}
+		return o
+	case []float64:
+		o := make([]any, len(x))
+		for i, e := range x {
+			o[i] = sanitizeJSON(e)
+		}
+		return o
+	}
+	// anything else (structs with float fields etc.): round-trip through JSON if it encodes, else stringify
+	if _, err := json.Marshal(v); err != nil {
+		return fmt.Sprintf("%+v", v)
+	}
+	return v
+}
